@@ -17,7 +17,7 @@ import (
 	"golang.org/x/tools/go/ssa/ssautil"
 )
 
-var partSuffixRe = regexp.MustCompile(`/[rce][0-9]+`)
+var partSuffixRe = regexp.MustCompile(`/[rcea][0-9]+`)
 
 type knownFinding struct {
 	Prop, Oblig, What string
